@@ -11,11 +11,32 @@ mkdir -p /tmp/mv
 git -C /repo worktree remove --force "$wt" 2>/dev/null
 git -C /repo worktree add -q --detach "$wt" HEAD || exit 2
 cd "$wt" || exit 2
-demos=$(ls "$src"/demo_*.rs 2>/dev/null)
+# unit-level demonstrations (crate-private code): files listed in $src/UNIT_DEMOS (one module name per
+# line, file <name>.rs) are copied into nexosim/src/executor/task/tests/ and declared in tests.rs
+unit=""
+[ -f "$src/UNIT_DEMOS" ] && unit=$(cat "$src/UNIT_DEMOS")
+demos=""
+for d in $(ls "$src"/demo_*.rs 2>/dev/null); do
+  b=$(basename "$d" .rs); skip=0
+  for u in $unit; do [ "$u" = "$b" ] && skip=1; done
+  [ $skip = 0 ] && demos="$demos $d"
+done
+add_unit() { for u in $unit; do cp "$src/$u.rs" nexosim/src/executor/task/tests/$u.rs; printf '\n#[cfg(not(nexosim_loom))]\n#[allow(non_snake_case)]\nmod %s;\n' "$u" >> nexosim/src/executor/task/tests.rs; done; }
+del_unit() { for u in $unit; do rm -f nexosim/src/executor/task/tests/$u.rs; done; [ -n "$unit" ] && git checkout -- nexosim/src/executor/task/tests.rs; }
 tests=""
 for d in $demos; do cp "$d" nexosim/tests/; tests="$tests --test $(basename "$d" .rs)"; done
 if [ -f "$src/unit_demo.sh" ]; then bash "$src/unit_demo.sh" "$wt"; fi
-run_demo() { if [ -f "$src/demo_cmd.sh" ]; then bash "$src/demo_cmd.sh"; else timeout 1200 cargo test --offline -q -p nexosim $tests -- --test-threads 4; fi; }
+run_demo() {
+  if [ -f "$src/demo_cmd.sh" ]; then bash "$src/demo_cmd.sh"; return $?; fi
+  rc=0
+  if [ -n "$tests" ]; then timeout 1200 cargo test --offline -q -p nexosim $tests -- --test-threads 4 || rc=$?; fi
+  if [ -n "$unit" ]; then
+    add_unit
+    for u in $unit; do timeout 1200 cargo test --offline -q -p nexosim --lib $u -- --test-threads 4 || rc=$?; done
+    del_unit
+  fi
+  return $rc
+}
 run_demo > /tmp/mv/$name.demo_without.log 2>&1; rc_without=$?
 if git apply --check "$src/patch.diff" 2>/dev/null; then git apply "$src/patch.diff"; applied=clean; else git apply --3way "$src/patch.diff" && applied=3way || applied=FAILED; fi
 run_demo > /tmp/mv/$name.demo_with.log 2>&1; rc_with=$?
